@@ -3,6 +3,8 @@ import os, sys
 sys.path.insert(0, os.path.join(os.path.dirname(__file__), '..', '..', 'tools'))
 import vlib
 from vlib import Job
+sys.path.insert(0, os.path.join(os.path.dirname(__file__), '..', 'bx'))
+import bxcfg
 
 PID = 'C04'
 HERE = os.path.dirname(os.path.abspath(__file__))
@@ -87,12 +89,14 @@ def jobs(tier):
     J.append(Job('subx_control', xsrc, 'hb_subx_control', includes=inc, defines=['VERIF_CONTROL'], kind='control', expect='fail',
                  unwind=10, timeout=600, cbmc_args=['--object-bits', '10']))
     add('control', 'h_control', None, defines=['VERIF_CONTROL'], kind='control', expect='fail')
+    J += bxcfg.jobs(vlib, Job, OUT, ['subx_eval', 'assert'], control=False)
     return J
 
 
 LEVEL = 'proof'
 TRUSTED = ['tools/cxx2c.py lowering']
 ASSUMPTIONS = [
+    'build_exec (build.cc), cases SUBX_EVAL and ASSERT lowered with the other cases of its switch dropped (cxx2c keep_cases); the recursive call, build_pred and the operator constructors are assumed contracts with a ghost log (props/bx/bx_model.h); build_pred itself is checked under C03 (scope of ?( )/!( ))',
     'type invariant: a pred_result holds one of its three enumerators',
     'op_assert::next / pred_not,and,or::result: the virtual calls op::next and pred::result are modelled (props/c04/op_model.h); the model predicate does not modify the stack it is given -- whether real predicates (pred_subx_any, word predicates) do is NOT covered; destruction of rejected stacks (unique_ptr) not modelled',
     'op_subx::next (bounded job): stacks, smart pointers, the state area and the virtual op::next are modelled (props/c04/subx_model*.h); deep copy of a stack is the model\'s copy',
@@ -102,7 +106,7 @@ EXPLANATION = 'Only the three-valued operator table; see DESIGN.md section 4 C04
 
 
 def spec_files():
-    return [os.path.join(HERE, 'spec.h'), os.path.join(HERE, 'harness.c')]
+    return [os.path.join(HERE, 'spec.h'), os.path.join(HERE, 'harness.c'), os.path.join(vlib.VERIF, 'props', 'bx', 'bx_harness.c'), os.path.join(vlib.VERIF, 'props', 'bx', 'bx_model.h')]
 
 
 def prepare(tier):
@@ -110,7 +114,8 @@ def prepare(tier):
     ow = vlib.extract('op', 'libzwerg/op.cc', OP_CFG, OP_ROOTS, OUT)
     xw = vlib.extract('subx', 'libzwerg/op.cc', SUBX_CFG, SUBX_ROOTS, OUT)
     lw.report['functions'] += ow.report['functions'] + xw.report['functions']
-    return {'unit': 'libzwerg/pred_result.hh (via pred_result.cc)', 'functions': lw.report['functions']}
+    bxw, bxd = bxcfg.prepare(vlib, OUT)
+    return {'build_exec_cases_lowered': bxd.get('kept'), 'build_exec_cases_dropped_by_extraction': bxd.get('dropped'), 'build_exec_functions': bxw.report['functions'], 'unit': 'libzwerg/pred_result.hh (via pred_result.cc)', 'functions': lw.report['functions']}
 
 
 def replay_engine():
